@@ -1097,8 +1097,8 @@ def main():
                 "contract:Units.invert", "contract:Units.raiseto")
     run.max_samples = 12
     thorough = tier() == "thorough"
-    n_total = 1200000 if thorough else 20000
-    per = 2500 if thorough else 250
+    n_total = 1200000 if thorough else 100000
+    per = 2500 if thorough else 1250
     cases = [{"seed": seed(), "block": b, "n": per} for b in range(n_total // per)]
     res = pmap("vf.checks.c05:run_block", cases, cpu_budget=900)
     pairings, systems, depth_hist, worst = {}, set(), {}, 0.0
